@@ -80,7 +80,10 @@ def subsets_case(runner, r, base, i, oc, ereqs, epend, sreqs, spend, wreqs):
         info = dict(model=model, usertags=ut, templates=[[n, "".join(l)] for n, l in fl])
         ereqs.append(req)
         epend.append((info, cap, err))
-        q = engtpl.spec_request(model, engrun.in_listing_order(tpl, os.path.join(base, "s%d_%d" % (i, k))), itf, ut)
+        if req.get("enums") and any("<<<ENUMS>>>" in l for _, ls in fl for l in ls):
+            oc.case(("subset", repr(info["templates"]), repr(ut)), nontrivial=True)
+            continue        # multi-line global value: Model/Engine only (see c16.case)
+        q = engtpl.spec_request(model, engrun.in_listing_order(tpl, os.path.join(base, "s%d_%d" % (i, k))), itf, ut, enums=req.get("enums", ""))
         sreqs.append(q)
         spend.append((info, engrun.in_listing_order(fl, os.path.join(base, "s%d_%d" % (i, k)), name=lambda f: f[0]), err, final))
         if k == 0:
